@@ -396,6 +396,58 @@ def gen_static_guards(repo):
     return ''.join(out)
 
 
+def gen_mw_guards(repo):
+    """Decision structure of the built-in middlewares' request functions, as source text of the conditions in order."""
+    def request_fn(rel, cls):
+        tree = parse(repo, rel)
+        return find_def(find_class(tree, cls).body, 'request')
+
+    def early_returns(fn):
+        out = []
+
+        def walk(stmts, ctx):
+            for st in stmts:
+                if isinstance(st, ast.If):
+                    cond = ast.unparse(st.test)
+                    last = st.body[-1]
+                    if isinstance(last, ast.Return):
+                        out.append((ctx + [cond], ast.unparse(last.value) if last.value is not None else 'None'))
+                    walk(st.body, ctx + [cond])
+                    walk(st.orelse, ctx + ['not (%s)' % cond])
+        walk(fn.body, [])
+        return out
+    gz = request_fn('clastic/middleware/compress.py', 'GzipMiddleware')
+    rows = ['%s => return %s' % (' && '.join(c), r) for c, r in early_returns(gz)]
+    assigns = [ast.unparse(st) for st in gz.body if isinstance(st, (ast.Assign, ast.Expr))
+               and not (isinstance(st, ast.Expr) and isinstance(st.value, ast.Constant))]
+    out = [HEADER % 'clastic/middleware/*.py', 'From Coq Require Import List String.\nImport ListNotations.\nLocal Open Scope string_scope.\n\n']
+    out.append('Definition GZIP_EARLY_RETURNS : list string :=\n  %s.\n' % names_list(rows).replace('; "', ';\n   "'))
+    out.append('Definition GZIP_EFFECTS : list string :=\n  %s.\n' % names_list(assigns).replace('; "', ';\n   "'))
+    cc = request_fn('clastic/middleware/client_cache.py', 'HTTPCacheMiddleware')
+    guards = [ast.unparse(st.test) for st in cc.body if isinstance(st, ast.If)]
+    out.append('Definition CACHE_GUARDS : list string := %s.\n' % names_list(guards))
+    stt = request_fn('clastic/middleware/stats.py', 'StatsMiddleware')
+    tries = [st for st in stt.body if isinstance(st, ast.Try)]
+    if len(tries) != 1:
+        raise TranslatorError('StatsMiddleware.request: expected exactly one try statement')
+    t = tries[0]
+    reraises = all(isinstance(h.body[-1], ast.Raise) and h.body[-1].exc is None for h in t.handlers) and len(t.handlers) >= 1
+    calls_next_in_try = any(isinstance(n, ast.Call) and isinstance(n.func, ast.Name) and n.func.id == 'next' for st in t.body for n in ast.walk(st))
+    records_in_finally = any(isinstance(n, ast.Call) and isinstance(n.func, ast.Attribute) and n.func.attr == 'add'
+                             for st in t.finalbody for n in ast.walk(st))
+    returns_resp = isinstance(stt.body[-1], ast.Return) and ast.unparse(stt.body[-1].value) == 'resp'
+    gb = lambda b: 'true' if b else 'false'
+    out.append('Definition STATS_SHAPE : list (string * bool) := [("except re-raises", %s); ("next() inside try", %s); '
+               '("hit recorded in finally", %s); ("returns resp", %s)].\n'
+               % (gb(reraises), gb(calls_next_in_try), gb(records_in_finally), gb(returns_resp)))
+    pf = request_fn('clastic/middleware/profile.py', 'SimpleProfileMiddleware')
+    first = pf.body[0]
+    if not (isinstance(first, ast.If) and isinstance(first.body[-1], ast.Return)):
+        raise TranslatorError('SimpleProfileMiddleware.request no longer starts with the trigger test')
+    out.append('Definition PROFILE_FIRST : string := %s.\n' % coq_str('%s => return %s' % (ast.unparse(first.test), ast.unparse(first.body[-1].value))))
+    return ''.join(out)
+
+
 def gen_normpath(repo):
     from strfun import StrFun
     rel = 'clastic/route.py'
@@ -410,6 +462,7 @@ def gen_normpath(repo):
 
 
 GENERATORS = {
+    'MwGuards.v': gen_mw_guards,
     'StaticGuards.v': gen_static_guards,
     'RouteLex.v': gen_route_lex,
     'NormPathGen.v': gen_normpath,
